@@ -6,12 +6,14 @@ package c09
 import (
 	"encoding/json"
 	"fmt"
+	"strings"
 	"time"
 
 	"verif/mc/env"
 	"verif/mc/families"
 	"verif/mc/fw"
 	"verif/mc/oracle"
+	"verif/mc/refpq"
 	"verif/mc/sut"
 )
 
@@ -27,7 +29,13 @@ type wcase struct {
 // It also returns the number of sink calls made.
 func runHistory(wc wcase) (string, int) {
 	t := sut.Get(wc.Target)
-	recs := oracle.GoRecs(t, families.MixedRecords(t, len(wc.History)))
+	var recs []interface{}
+	if wc.Target == "tailstr" {
+		// one page of more than 16 MiB and 2^24 bytes: 280 strings of 64 KiB
+		recs = hugeRecs(t, len(wc.History))
+	} else {
+		recs = oracle.GoRecs(t, families.MixedRecords(t, len(wc.History)))
+	}
 	sink := &env.Sink{Plan: wc.Plan}
 	msg := ""
 	p := fw.Protect(func() {
@@ -68,6 +76,19 @@ func runHistory(wc wcase) (string, int) {
 	return msg, sink.Calls
 }
 
+var hugeCache []interface{}
+
+func hugeRecs(t *sut.Target, n int) []interface{} {
+	if len(hugeCache) < n {
+		vals := make([]refpq.Val, n)
+		for i := range vals {
+			vals[i] = refpq.Val{Group: []refpq.Val{{Leaf: int32(i + 1)}, {Leaf: strings.Repeat(string(rune('a'+i%26)), 65536+i)}}}
+		}
+		hugeCache = oracle.GoRecs(t, vals)
+	}
+	return hugeCache[:n]
+}
+
 func run(c *fw.Ctx) {
 	type wl struct {
 		target, history string
@@ -79,6 +100,7 @@ func run(c *fw.Ctx) {
 		{"mini", "AAWAA", 2},   // records pending at Close
 		{"person", "AAAWAAAW", 2},
 		{"person", "AAW", 0},
+		{"tailstr", strings.Repeat("A", 280) + "W", 0}, // a page body of 18 MB
 	}
 	// every Add/Write history up to a length bound on the narrow shape
 	maxL := 5
@@ -102,13 +124,13 @@ func run(c *fw.Ctx) {
 	}
 	c.Bound("history_enumeration", fmt.Sprintf("every Add/Write history of length <= %d on mini, page sizes 1 and 2, plus the fixed workloads", maxL))
 	var bd []string
-	for _, w := range wls[:5] {
+	for _, w := range wls[:6] {
 		bd = append(bd, fmt.Sprintf("%s %q page=%d", w.target, w.history, w.page))
 	}
 	c.Bound("workloads", bd)
 	for wi, w := range wls {
 		for cd := 0; cd < 3; cd++ {
-			if wi >= 5 && cd == 2 && !c.Thorough() {
+			if wi >= 6 && cd == 2 && !c.Thorough() {
 				continue // enumerated histories: gzip in thorough only
 			}
 			base := wcase{w.target, w.history, w.page, cd, env.SinkPlan{FailAt: -1, FailAt2: -1}}
